@@ -1,7 +1,7 @@
 from pel.datastream import DataStream
 from collections import OrderedDict
 import json
-from pel.peltool.parse_user_data import ParseUserData
+from pel.peltool.parse_user_data import ParseUserData, loadJSON
 from pel.peltool.comp_id import getDisplayCompID
 from pel.peltool.config import Config
 from pel.hexdump import hexdump
@@ -40,8 +40,8 @@ class UserData:
         value = parser.parse(config)
 
         try:
-            j = json.loads(value)
-        except json.decoder.JSONDecodeError:
+            j = loadJSON(value)
+        except ValueError:
             # This should have been valid JSON but if it isn't
             # then hexdump it.
             mv = memoryview(value.encode('utf-8'))
